@@ -23,6 +23,7 @@ package ro
 //@ func (*publishSubjectImpl).NextWithContext
 //@   props C01 C02 C10 C13 C09 C06
 //@   binds ctx value
+//@   scope ctx err mu observerIndex observers s status value
 //@   ensures [one-critical-section|C02,C10,C13] count(lock.mu) == 1
 //@   inline (*publishSubjectImpl).broadcastNext
 //@   track observers.* elem.* hook.* call.NewNotification*
@@ -35,6 +36,7 @@ package ro
 //@ func (*publishSubjectImpl).ErrorWithContext
 //@   props C01 C02 C10 C13 C09 C06
 //@   binds ctx err
+//@   scope ctx err mu observerIndex observers s status
 //@   ensures [one-critical-section|C02,C10,C13] count(lock.mu) == 1
 //@   inline (*publishSubjectImpl).broadcastError (*publishSubjectImpl).unsubscribeAll
 //@   track observers.* elem.* hook.* call.NewNotification*
@@ -46,6 +48,7 @@ package ro
 //@ func (*publishSubjectImpl).CompleteWithContext
 //@   props C01 C02 C10 C13 C09 C06
 //@   binds ctx
+//@   scope ctx err mu observerIndex observers s status
 //@   ensures [one-critical-section|C02,C10,C13] count(lock.mu) == 1
 //@   inline (*publishSubjectImpl).broadcastComplete (*publishSubjectImpl).unsubscribeAll
 //@   track observers.* elem.* hook.* call.NewNotification*
@@ -57,6 +60,7 @@ package ro
 //@ func (*publishSubjectImpl).SubscribeWithContext
 //@   props C01 C02 C03 C10 C11 C13 C14 C09 C06
 //@   binds subscriberCtx destination
+//@   scope destination err index mu observerIndex observers s status subscriberCtx
 //@   ensures [one-critical-section|C02,C10,C11,C13,C09] count(lock.mu) == 1 && heldat(mu, sub.ANY)
 //@   alias sub=NewSubscriber()
 //@   track call.NewSubscriber observers.* NewSubscriber().*
@@ -72,6 +76,7 @@ package ro
 //@   binds index
 //@   calls Delete
 //@   params -
+//@   scope destination err index mu observerIndex observers s status subscriberCtx
 //@   track observers.*
 //@   ensures [teardown-unregisters-own-entry|C03,C10,C06] trace(observers.Delete(index))
 
@@ -101,6 +106,7 @@ package ro
 //@ func (*behaviorSubjectImpl).NextWithContext
 //@   props C01 C02 C10 C13 C09 C06
 //@   binds ctx value
+//@   scope ctx err last mu observerIndex observers s status value
 //@   ensures [one-critical-section|C02,C10,C13] count(lock.mu) == 1
 //@   inline (*behaviorSubjectImpl).broadcastNext
 //@   track observers.* elem.* hook.* call.NewNotification*
@@ -113,6 +119,7 @@ package ro
 //@ func (*behaviorSubjectImpl).ErrorWithContext
 //@   props C01 C02 C10 C13 C09 C06
 //@   binds ctx err
+//@   scope ctx err last mu observerIndex observers s status
 //@   ensures [one-critical-section|C02,C10,C13] count(lock.mu) == 1
 //@   inline (*behaviorSubjectImpl).broadcastError (*behaviorSubjectImpl).unsubscribeAll
 //@   track observers.* elem.* hook.* call.NewNotification*
@@ -124,6 +131,7 @@ package ro
 //@ func (*behaviorSubjectImpl).CompleteWithContext
 //@   props C01 C02 C10 C13 C09 C06
 //@   binds ctx
+//@   scope ctx err last mu observerIndex observers s status
 //@   ensures [one-critical-section|C02,C10,C13] count(lock.mu) == 1
 //@   inline (*behaviorSubjectImpl).broadcastComplete (*behaviorSubjectImpl).unsubscribeAll
 //@   track observers.* elem.* hook.* call.NewNotification*
@@ -135,6 +143,7 @@ package ro
 //@ func (*behaviorSubjectImpl).SubscribeWithContext
 //@   props C01 C02 C03 C10 C11 C13 C14 C09 C06
 //@   binds subscriberCtx destination
+//@   scope destination err index last mu observerIndex observers s status subscriberCtx
 //@   ensures [one-critical-section|C02,C10,C11,C13,C09] count(lock.mu) == 1 && heldat(mu, sub.ANY)
 //@   alias sub=NewSubscriber()
 //@   track call.NewSubscriber observers.* NewSubscriber().*
@@ -150,6 +159,7 @@ package ro
 //@   binds index
 //@   calls Delete
 //@   params -
+//@   scope destination err index last mu observerIndex observers s status subscriberCtx
 //@   track observers.*
 //@   ensures [teardown-unregisters-own-entry|C03,C10,C06] trace(observers.Delete(index))
 
@@ -179,6 +189,7 @@ package ro
 //@ func (*asyncSubjectImpl).NextWithContext
 //@   props C01 C02 C10 C13 C09 C06
 //@   binds ctx value
+//@   scope ctx err hasValue mu observerIndex observers s status value
 //@   ensures [one-critical-section|C02,C10,C13] count(lock.mu) == 1
 //@   track observers.* elem.* hook.* call.NewNotification*
 //@   ensures [open-only-remembers|C01,C10,C09] atlock(status) == 0 ==> atunlock(hasValue) == true && atunlock(value).A == ctx && atunlock(value).B == value && trace()
@@ -189,6 +200,7 @@ package ro
 //@ func (*asyncSubjectImpl).ErrorWithContext
 //@   props C01 C02 C10 C13 C09 C06
 //@   binds ctx err
+//@   scope ctx err hasValue mu observerIndex observers s status value
 //@   ensures [one-critical-section|C02,C10,C13] count(lock.mu) == 1
 //@   inline (*asyncSubjectImpl).broadcastError (*asyncSubjectImpl).unsubscribeAll
 //@   track observers.* elem.* hook.* call.NewNotification*
@@ -200,6 +212,7 @@ package ro
 //@ func (*asyncSubjectImpl).CompleteWithContext
 //@   props C01 C02 C10 C13 C09 C06
 //@   binds ctx
+//@   scope ctx err hasValue mu observerIndex observers s status value
 //@   ensures [one-critical-section|C02,C10,C13] count(lock.mu) == 1
 //@   inline (*asyncSubjectImpl).broadcastComplete (*asyncSubjectImpl).broadcastNext (*asyncSubjectImpl).unsubscribeAll
 //@   track observers.* elem.* hook.* call.NewNotification*
@@ -212,6 +225,7 @@ package ro
 //@ func (*asyncSubjectImpl).SubscribeWithContext
 //@   props C01 C02 C03 C10 C11 C13 C14 C09 C06
 //@   binds subscriberCtx destination
+//@   scope destination err hasValue index mu observerIndex observers s status subscriberCtx value
 //@   ensures [one-critical-section|C02,C10,C11,C13,C09] count(lock.mu) == 1 && heldat(mu, sub.ANY)
 //@   alias sub=NewSubscriber()
 //@   track call.NewSubscriber observers.* NewSubscriber().*
@@ -228,6 +242,7 @@ package ro
 //@   binds index
 //@   calls Delete
 //@   params -
+//@   scope destination err hasValue index mu observerIndex observers s status subscriberCtx value
 //@   track observers.*
 //@   ensures [teardown-unregisters-own-entry|C03,C10,C06] trace(observers.Delete(index))
 
@@ -258,6 +273,7 @@ package ro
 //@ func (*replaySubjectImpl).NextWithContext
 //@   props C01 C02 C10 C11 C13 C09 C06
 //@   binds s ctx value
+//@   scope bufferSize ctx err mu observerIndex observers s status value values varargs
 //@   ensures [one-critical-section|C02,C10,C13] count(lock.mu) == 1
 //@   requires s.bufferSize >= -1
 //@   inline (*replaySubjectImpl).broadcastNext
@@ -274,6 +290,7 @@ package ro
 //@ func (*replaySubjectImpl).ErrorWithContext
 //@   props C01 C02 C10 C13 C09 C06
 //@   binds ctx err
+//@   scope bufferSize ctx err mu observerIndex observers s status values
 //@   ensures [one-critical-section|C02,C10,C13] count(lock.mu) == 1
 //@   inline (*replaySubjectImpl).broadcastError (*replaySubjectImpl).unsubscribeAll
 //@   track observers.* elem.* hook.* call.NewNotification*
@@ -285,6 +302,7 @@ package ro
 //@ func (*replaySubjectImpl).CompleteWithContext
 //@   props C01 C02 C10 C13 C09 C06
 //@   binds ctx
+//@   scope bufferSize ctx err mu observerIndex observers s status values
 //@   ensures [one-critical-section|C02,C10,C13] count(lock.mu) == 1
 //@   inline (*replaySubjectImpl).broadcastComplete (*replaySubjectImpl).unsubscribeAll
 //@   track observers.* elem.* hook.* call.NewNotification*
@@ -296,6 +314,7 @@ package ro
 //@ func (*replaySubjectImpl).SubscribeWithContext
 //@   props C01 C02 C03 C10 C11 C13 C14 C09 C06
 //@   binds subscriberCtx destination
+//@   scope bufferSize destination err index mu observerIndex observers s status subscriberCtx values
 //@   ensures [one-critical-section|C02,C10,C11,C13,C09] count(lock.mu) == 1 && heldat(mu, sub.ANY) && heldat(mu, loop.ANY)
 //@   alias sub=NewSubscriber()
 //@   track call.NewSubscriber observers.* NewSubscriber().* loop.*
@@ -311,6 +330,7 @@ package ro
 //@   binds index
 //@   calls Delete
 //@   params -
+//@   scope bufferSize destination err index mu observerIndex observers s status subscriberCtx values
 //@   track observers.*
 //@   ensures [teardown-unregisters-own-entry|C03,C10,C06] trace(observers.Delete(index))
 
@@ -344,6 +364,7 @@ package ro
 //@ func (*unicastSubjectImpl).NextWithContext
 //@   props C01 C02 C10 C13 C06 C09
 //@   binds s ctx value
+//@   scope bufferSize ctx err mu observer s status value values varargs
 //@   ensures [one-critical-section|C02,C10,C13] count(lock.mu) == 1
 //@   requires s.bufferSize >= -1
 //@   track observer.* hook.* call.NewNotification*
@@ -358,6 +379,7 @@ package ro
 //@ func (*unicastSubjectImpl).ErrorWithContext
 //@   props C01 C02 C10 C13 C06 C09
 //@   binds ctx err
+//@   scope bufferSize ctx err mu observer s status values
 //@   ensures [one-critical-section|C02,C10,C13] count(lock.mu) == 1
 //@   ensures [delivers-outside-the-subject-lock|C06,C10] notheldat(mu, observer.ErrorWithContext)
 //@   track observer.* hook.* call.NewNotification*
@@ -369,6 +391,7 @@ package ro
 //@ func (*unicastSubjectImpl).CompleteWithContext
 //@   props C01 C02 C10 C13 C06 C09
 //@   binds ctx
+//@   scope bufferSize ctx err mu observer s status values
 //@   ensures [one-critical-section|C02,C10,C13] count(lock.mu) == 1
 //@   ensures [delivers-outside-the-subject-lock|C06,C10] notheldat(mu, observer.CompleteWithContext)
 //@   track observer.* hook.* call.NewNotification*
@@ -380,6 +403,7 @@ package ro
 //@ func (*unicastSubjectImpl).SubscribeWithContext
 //@   props C01 C03 C10 C13 C02 C05 C20 C08 C09 C06
 //@   binds subscriberCtx destination
+//@   scope attached bufferSize destination err mu observer s slicelit status subscriberCtx subscription values
 //@   ensures [one-critical-section|C05,C08,C10,C13,C20,C09] count(lock.mu) == 1 && heldat(mu, sub.ErrorWithContext) && heldat(mu, sub.CompleteWithContext) && heldat(mu, loop.ANY)
 //@   ensures [teardown-registered-outside-the-subject-lock-because-a-closed-subscriber-runs-it-at-once|C06,C03,C10] notheldat(mu, sub.Add)
 //@   alias sub=subscription
@@ -425,11 +449,13 @@ package ro
 //@ func NewBehaviorSubject
 //@   props C10 C09
 //@   binds initial
+//@   scope complit initial
 //@   ensures [starts-open-with-the-initial-value-and-a-context|C10,C09] result.status == 0 && result.last.B == initial && result.last.A != nil && result.observerIndex == 0
 
 //@ func NewReplaySubject
 //@   props C10 C11
 //@   binds bufferSize
+//@   scope bufferSize complit slicelit
 //@   ensures [starts-open-and-empty-with-the-configured-size|C10,C11] result.status == 0 && len(result.values) == 0 && result.bufferSize == bufferSize && result.observerIndex == 0
 
 //@ func NewAsyncSubject
